@@ -96,7 +96,12 @@ def sampler_union_log(cfg):
         warnings.simplefilter('ignore')
         s = ckpt.make(cfg, model, None, resume=False, cls=Sampler)
         try:
-            s.run(**dict(cfg.get('runkw') or dict(n_eff=40, discard_exploration=True)))
+            kw = dict(cfg.get('runkw') or dict(n_eff=40, discard_exploration=True))
+            kw.setdefault('n_like_max', 3000)          # bounded: the unions built on the way are what matters here
+            with common.cpu_limit(240):
+                s.run(**kw)
+        except common.CpuTimeout:
+            pass                                       # keep what was recorded so far
         except Exception as e:
             log.records.append(dict(event=dict(name='Raise', op='run', exc=type(e).__name__, msg=str(e)[:150]),
                                     state=log.records[-1]['state'] if log.records else dict(recs=[], lens=[0, 0, 0, 0], trimmed=[], cache=0, nsamp=0, nrej=0),
